@@ -109,9 +109,9 @@ def audit_axioms(prop):
     with Lock("lake"):
         rc, out = sh(["lake", "env", "lean", path], cwd=LEAN, timeout=1800)
     thms = {}
-    for m in re.finditer(r"'([^']+)' depends on axioms: \[([^\]]*)\]", out):
+    for m in re.finditer(r"^'(.+?)' depends on axioms: \[([^\]]*)\]", out, re.M):
         thms[m.group(1)] = [a.strip() for a in m.group(2).replace("\n", " ").split(",") if a.strip()]
-    for m in re.finditer(r"'([^']+)' does not depend on any axioms", out):
+    for m in re.finditer(r"^'(.+?)' does not depend on any axioms", out, re.M):
         thms[m.group(1)] = []
     ok = rc == 0 and len(thms) > 0
     bad = {t: [a for a in ax if a not in ALLOWED_AXIOMS] for t, ax in thms.items()}
